@@ -4,12 +4,12 @@ package main
 // reader over library- and boxo-written shards (C02 C08 C10 C11 C15 C05 C06 C12 C13 C20).
 
 import (
-	"time"
 	"context"
 	"encoding/binary"
 	"encoding/json"
 	"fmt"
 	"sort"
+	"time"
 
 	"github.com/ipfs/boxo/ipld/merkledag"
 	boxohamt "github.com/ipfs/boxo/ipld/unixfs/hamt"
@@ -59,8 +59,8 @@ type HamtInput struct {
 	History []HOp    `json:"history,omitempty"` // applied to a boxo shard (mode ref)
 	Probes  []string `json:"probes,omitempty"`  // non-member keys to look up
 	Faults  [][2]int `json:"faults,omitempty"`
-	Hostile *HShard `json:"hostile,omitempty"`
-	NoModel bool    `json:"nomodel,omitempty"` // too large to evaluate in Coq on every run: oracle only
+	Hostile *HShard  `json:"hostile,omitempty"`
+	NoModel bool     `json:"nomodel,omitempty"` // too large to evaluate in Coq on every run: oracle only
 	// hashbits
 	Hash  []byte `json:"hash,omitempty"`
 	Off   int    `json:"off,omitempty"`
@@ -1172,10 +1172,10 @@ func shortInput(in HamtInput) interface{} {
 
 // ---- hostile shards: valid dag-pb whose UnixFS fields are adversarial ----
 type HLink struct {
-	Name    *string `json:"name"`
-	Child   *HShard `json:"child,omitempty"` // nil: an entry target
-	Raw     bool    `json:"raw,omitempty"`   // the target is a raw block
-	Missing bool    `json:"missing,omitempty"`
+	Name    *string  `json:"name"`
+	Child   *HShard  `json:"child,omitempty"` // nil: an entry target
+	Raw     bool     `json:"raw,omitempty"`   // the target is a raw block
+	Missing bool     `json:"missing,omitempty"`
 	Built   *cid.Cid `json:"-"` // an already stored block (for DAGs with shared children)
 }
 type HShard struct {
